@@ -147,10 +147,21 @@ def route_asan(types, res, seed, target="cpu_serial", sanitize=True, label="asan
             return
         jobs, metas = [], []
         for ti, t in enumerate(types):
-            for vmode in ("ramp", "minimal"):
-                v = xt.gen(t, vmode)
+            for vmode in ("ramp", "minimal", "cap"):
+                v = xt.gen(t, "ramp" if vmode == "cap" else vmode)
+                if vmode == "cap":
+                    if not any(s_[0] == "Str" for s_ in xt.subtypes(t)) or not xt.py_expressible(t, v):
+                        continue
                 try:
-                    obj, buf = flush_object(t, v, seed)
+                    if vmode == "cap":
+                        # strings given as integer capacities (sizes that are not whole slots): accessors must still make
+                        # only accesses that are aligned relative to the object start
+                        arg, v = cons.cap_transform(t, v)
+                        bb = place.traced("np", 16, default_alignment=8)
+                        bb.allocate(16)
+                        obj, buf = xt.construct(t, arg, _buffer=bb), bb
+                    else:
+                        obj, buf = flush_object(t, v, seed)
                     if not xt.veq(xt.read(t, obj), v):
                         res.skipped["initial-readback(C01's business)"] += 1
                         continue
@@ -229,7 +240,7 @@ def route_asan(types, res, seed, target="cpu_serial", sanitize=True, label="asan
             if ji < len(images):
                 # final state: every leaf replaced, nothing else touched
                 try:
-                    val, _ = xt.decode(t, images[ji], meta["off"])
+                    val, _ = xt.decode(t, images[ji], meta["off"], issues=[])
                     res.oracles["final-image"] += 1
                     if not xt.veq(val, meta["final"]):
                         bad(pid + ".set", "final-image-differs", "first difference at %r: %s" % xt.vdiff(val, meta["final"]))
